@@ -35,7 +35,8 @@ fn frame_result(inst: &Instance, frame: &[u8]) -> (String, bool) {
 
 /// Reference read loop over the read-side answers of a history. Returns (results, pongs due,
 /// index of the results that are keep-alives, cancelled reads do not change anything).
-pub fn reference_reads(inst: &Instance, hist: &[Act]) -> (Vec<String>, Vec<usize>) {
+pub fn reference_reads(inst: &Instance, hist: &[Act], delivered: &[usize]) -> (Vec<String>, Vec<usize>) {
+    let mut di = 0usize;
     let inbound = inst.inbound();
     let mut results = vec![];
     let mut keepalive_results = vec![];
@@ -62,7 +63,9 @@ pub fn reference_reads(inst: &Instance, hist: &[Act]) -> (Vec<String>, Vec<usize
     for a in hist {
         match a {
             Act::Deliver(k) => {
-                let n = (*k).min(inbound.len() - buffered);
+                // a transport may hand over fewer bytes than it has (the offered buffer clips it)
+                let n = delivered.get(di).copied().unwrap_or((*k).min(inbound.len() - buffered));
+                di += 1;
                 buffered += n;
                 drain(buffered, &mut consumed, &mut frame_idx, &mut results, &mut keepalive_results);
             },
@@ -88,7 +91,7 @@ pub fn judge(inst: &Instance, hist: &[Act], r: &RunResult) -> Vec<(String, Strin
     }
     match &inst.program {
         Program::ReadLoop => {
-            let (want, ka) = reference_reads(inst, hist);
+            let (want, ka) = reference_reads(inst, hist, &r.delivered);
             // results completed so far must be a prefix of the reference (the reference may be
             // ahead by the result the suspended call is still working on)
             let n = r.results.len();
@@ -100,9 +103,11 @@ pub fn judge(inst: &Instance, hist: &[Act], r: &RunResult) -> Vec<(String, Strin
                 return out;
             }
             // a suspended or finished run may lag behind the reference only by what the suspended call will still return
+            // before the connection asks the transport for more bytes (or ends) it must have handed
+            // over every complete frame it holds; while it is suspended in the keep-alive reply the
+            // frames behind that keep-alive are legitimately still buffered
             let waiting_on_write = r.asked == Some(super::Side::Write);
-            let slack = if waiting_on_write { 1 } else { 0 };
-            if want.len() > n + slack && (r.asked.is_some() || r.finished) {
+            if want.len() > n && !waiting_on_write && (r.asked.is_some() || r.finished) {
                 out.push(("result-missing".into(), format!("{} result(s) returned, {} due from the frames delivered: {:?} vs {:?}", n, want.len(), brief(&r.results), brief(&want))));
                 return out;
             }
